@@ -39,6 +39,9 @@ pub struct Sc {
     /// the CSV files use the deprecated 'date' column for the settlement date
     #[serde(default)]
     pub legacy_date_col: bool,
+    /// --date-fmt of the application runs: 0 default, 1 [month]/[day]/[year], 2 [day].[month].[year]
+    #[serde(default)]
+    pub date_fmt: u8,
     /// Look-ups over a cache an earlier run left behind, while the network misbehaves.
     #[serde(default)]
     pub degraded: Vec<Degraded>,
@@ -199,6 +202,7 @@ pub fn generate(seed: u64) -> Sc {
         sequences,
         app_run_files: app_runs.iter().map(|_| r.range(1, 3) as usize).collect(),
         legacy_date_col: r.chance(1, 5),
+        date_fmt: r.weighted(&[4, 1, 1]) as u8,
         app_runs,
         hash_seed: r.next_u64(),
     }
@@ -322,6 +326,7 @@ impl Engine for C12 {
                 app_files: 1,
                 app_console: false,
                 app_legacy_date: false,
+                app_date_fmt: 0,
                 net_faults: vec![],
                 server_today: None,
                 fs_faults: FsFaultSpec::default(),
@@ -459,6 +464,7 @@ impl Engine for C12 {
                 app_files: 1,
                 app_console: false,
                 app_legacy_date: false,
+                app_date_fmt: 0,
                 net_faults: vec![],
                 server_today: None,
                 fs_faults: FsFaultSpec::default(),
@@ -483,6 +489,7 @@ impl Engine for C12 {
                 app_files: 1,
                 app_console: false,
                 app_legacy_date: false,
+                app_date_fmt: 0,
                 net_faults: dg.net_faults.clone(),
                 server_today: None,
                 fs_faults: FsFaultSpec::default(),
@@ -547,6 +554,9 @@ impl Engine for C12 {
             if rows.iter().any(|r| r.sell) {
                 st.bump("probe.app_sell_rows");
             }
+            if sc.date_fmt != 0 {
+                st.bump("probe.app_runs_with_date_fmt_option");
+            }
             if rows.iter().any(|r| r.roc && r.fx.is_none() && r.cur.as_ref().map(|c| c.trim().to_uppercase() == "USD").unwrap_or(false)) {
                 st.bump("probe.app_return_of_capital_in_usd_without_rate");
             }
@@ -563,6 +573,7 @@ impl Engine for C12 {
                 app_files: n_files,
                 app_console: false,
                 app_legacy_date: sc.legacy_date_col,
+                app_date_fmt: sc.date_fmt,
                 net_faults: vec![],
                 server_today: None,
                 fs_faults: FsFaultSpec::default(),
@@ -613,6 +624,7 @@ impl Engine for C12 {
                     app_files: n_files,
                     app_console: true,
                     app_legacy_date: sc.legacy_date_col,
+                    app_date_fmt: sc.date_fmt,
                     net_faults: vec![],
                     server_today: None,
                     fs_faults: FsFaultSpec::default(),
@@ -860,6 +872,11 @@ impl Engine for C12 {
             s.legacy_date_col = false;
             c.push(s);
         }
+        if sc.date_fmt != 0 {
+            let mut s = sc.clone();
+            s.date_fmt = 0;
+            c.push(s);
+        }
         if sc.app_run_files.iter().any(|n| *n > 1) {
             let mut s = sc.clone();
             s.app_run_files.clear();
@@ -880,7 +897,7 @@ impl Engine for C12 {
     }
 
     fn sample(&self, sc: &Sc) -> Value {
-        json!({"calendar": sc.cal, "today": sc.today, "published_today": sc.published_today, "malformed": sc.malformed, "lookups": sc.lookups, "shared_loader_sequences": sc.sequences,
+        json!({"calendar": sc.cal, "today": sc.today, "published_today": sc.published_today, "malformed": sc.malformed, "lookups": sc.lookups, "shared_loader_sequences": sc.sequences, "date_fmt_of_application_runs": DATE_FMTS[sc.date_fmt as usize % 3], "degraded_network_runs": sc.degraded.len(), "observation_order": sc.format.obs_order,
                "app_runs": sc.app_runs.iter().map(|r| app_csv(r)).collect::<Vec<_>>() })
     }
     fn hang_or_death_is_violation(&self) -> bool {
@@ -932,6 +949,7 @@ impl Engine for C12 {
             "probe.console_run_printed_tables",
             "probe.app_rows_over_several_files",
             "probe.app_sell_rows",
+            "probe.app_runs_with_date_fmt_option",
             "probe.app_return_of_capital_in_usd_without_rate",
             "probe.console_run_rejected_with_message",
             "fault.obs_malformed_on_lookup_path",
